@@ -132,6 +132,17 @@ def build_root(root, table, tmp):
     if not os.path.exists(path):
       with sq.SQLiteFederatedDataBuilder(path) as b:
         b.add_many([(cid, table[cid]) for cid in [U[3], U[0], U[4], U[2], U[1]]])
+    # another database (other clients, other count) is opened and queried first in the same process: nothing learnt from
+    # it may be remembered for this one
+    other = os.path.join(tmp, 'other.sqlite')
+    if not os.path.exists(other):
+      with sq.SQLiteFederatedDataBuilder(other) as b:
+        b.add_many([(b'o%d' % k, {'x': np.arange(k + 1, dtype=np.int32), 't': np.zeros(k + 1, np.int32),
+                                  'm': np.zeros((k + 1, 2), np.int32)}) for k in range(7)])
+    ofd = sq.SQLiteFederatedData.new(other)
+    ofd.num_clients(), list(ofd.client_ids()), list(ofd.client_sizes()), ofd.slice(b'o1', b'o4').num_clients()
+    ofd.slice(None, b'b').num_clients(), ofd.slice(b'a', None).num_clients()
+    ofd._connection.close()
     fd = sq.SQLiteFederatedData.new(path)
   if root.startswith('sub_'):
     fd = fdm.SubsetFederatedData(fd, list(U))
